@@ -223,12 +223,12 @@ Proof.
     all: try match goal with Hx : packet_eqb _ _ = true |- _ => apply packet_eqb_eq in Hx; subst end.
     all: store_tac.
     all: try match goal with Hx : ?a = ?b |- all_ok _ ?b => rewrite <- Hx; assumption end.
-  - intros s e s' (H1 & H2 & H3 & H4 & H5) Hd. unfold inv_store. unfold step_deq, take_deq in Hd.
+  - intros s e s' (H1 & H2 & H3 & H4 & H5) Hd. unfold inv_store. unfold step_deq, take_deq, guard in Hd.
     destruct (dp s) eqn:Edp; destruct e; try discriminate Hd; bm Hd; inv_some Hd; sf; cbn [dp_ok] in *;
       repeat match goal with |- context [match ?b with _ => _ end] => destruct b end; sf; cbn [dp_ok] in *;
       store_tac.
     all: try (apply is_publish_out_ok; assumption).
-  - intros s e s' (H1 & H2 & H3 & H4 & H5) Ha. unfold inv_store. unfold step_ack in Ha.
+  - intros s e s' (H1 & H2 & H3 & H4 & H5) Ha. unfold inv_store. unfold step_ack, guard in Ha.
     destruct (ap s) eqn:Eap; destruct e; try discriminate Ha; bm Ha; inv_some Ha;
       unfold ack_token_back; repeat match goal with |- context [match ?b with _ => _ end] => destruct b end; sf;
       store_tac; eapply ackq_take_ok; eassumption.
